@@ -53,6 +53,7 @@ func runC19(c *Ctx) {
 	c.c19StreamStops()
 	c.c19GraceReadEveryRound()
 	c.c19ConversionsAssertWhatTheyReturn()
+	c.c19PagesAreNotComparedAsValues()
 	c.c19StreamCurrentPage()
 	c.c19StreamGetNext()
 	c.c19GraceFromDryUp()
@@ -1563,5 +1564,41 @@ func (c *Ctx) c19ConversionsAssertWhatTheyReturn() {
 			c.check(types.Identical(ta.AssertedType, rt), "E18", key, c.ipos(ta), "the assertion is to the type returned",
 				"the value returned as "+types.TypeString(rt, nil)+" is obtained by asserting "+types.TypeString(ta.AssertedType, nil)+", an interface that asks for more: a page that is a good "+types.TypeString(rt, nil)+" but lacks the extra methods is refused as 'not dynamic', the paginator takes the refusal for the end of the pages, and the iteration stops after the first page without an error")
 		})
+	}
+}
+
+// c19PagesAreNotComparedAsValues (E19): "for any partition of a collection into pages". A page is whatever implements the
+// page interface — a pointer, a struct with a slice in it, a small value. Two interface values compared with == compare
+// the dynamic values: equal for two different pages with the same content (the second one is taken for 'the same page
+// again' and the iteration ends), a run-time panic for a page type that is not comparable. The package compares pages
+// with nil only.
+func (c *Ctx) c19PagesAreNotComparedAsValues() {
+	c.rule("E19", "package pagination never compares two page values with == / != (interface values compare their dynamic values: equal content is not the same page, and an uncomparable page type panics); comparisons with nil aside", 0)
+	n := 0
+	for _, f := range c.srcFuncs(pagPkg) {
+		if f.Blocks == nil {
+			continue
+		}
+		allInstrs(f, func(in ssa.Instruction) {
+			bo, ok := in.(*ssa.BinOp)
+			if !ok || (bo.Op != token.EQL && bo.Op != token.NEQ) {
+				return
+			}
+			isPage := func(v ssa.Value) bool {
+				if isNilConst(v) {
+					return false
+				}
+				_, isIface := v.Type().Underlying().(*types.Interface)
+				return isIface && strings.Contains(v.Type().String(), "pagination.I")
+			}
+			if isPage(bo.X) && isPage(bo.Y) {
+				n++
+				c.FuncsSeen[fname(outermost(f))] = true
+				c.violate("E19", fname(outermost(f))+"/pages-compared-as-values", c.ipos(bo), "two pages are compared with "+bo.Op.String()+": for page types that are values the comparison is by content — the second of two pages with equal content is taken for the page the paginator is already on, the fetch is refused and the items of every later page are never yielded — and for a page type that is not comparable (a struct holding a slice) it panics at the first page boundary")
+			}
+		})
+	}
+	if n == 0 {
+		c.info("E19", "pagination/no-page-comparison", "-", "no two page values are compared")
 	}
 }
